@@ -939,13 +939,10 @@ class Check(PropertyCheck):
     shard = 100
     workers = 4
     partial = (
-        'structures of REDUCED operators and of INVERSES: `reduce_structs : reduce e = Ok e\' -> wfo e = true -> '
-        'in_struct e\' = in_struct e /\\ out_struct e\' = out_struct e` (an invariant of the scan: every rule replaces an '
-        'adjacent chain-compatible pair by a chain with the same end structures, needing one leaf fact - the declared '
-        'output of a MoveAxis(d,s) after MoveAxis(s,d) is the input of the latter) and `inverse_structs` are stated in '
-        'DESIGN section 4 but not proved; they are checked by the correspondence only (kinds reduce, reduce-rule, '
-        'block-reduce-*, block-product, I, II, I-blockdiag: declared structures of the real reduced / inverted object '
-        'vs those of the unreduced operand / swapped). The closed-form leaves of Model/Exec.v without a measured matrix '
+        'the structures of REDUCED operators (reduce_structs: Props/C01Structs.v, compiled by the C01 check) and of '
+        'INVERSES (inverse_structs: Props/C06Structs.v, compiled by the C06 check) are proved there for all expression '
+        'trees under wfo and prims_ok; here they are additionally compared on the real objects (kinds reduce, reduce-rule, '
+        'block-reduce-*, block-product, I, II, I-blockdiag). Not proved: The closed-form leaves of Model/Exec.v without a measured matrix '
         '(rotation, HWP, polariser, 1-d diagonal created by reduce) are not discharged for the value-level leaf fact '
         '(their dtype/shape rules ARE discharged for the abstract evaluation: declared_is_evaluated).'
     )
